@@ -494,6 +494,10 @@ func (t *RaftTransaction) ListPage(ctx context.Context, prefix string, after str
 	seekPrefix := []byte(fullAfter)
 	if after == "" {
 		seekPrefix = prefixBytes
+	} else {
+		// See listPageInner: filepath.Join cleans the joined path and may
+		// leave the prefix ("." or "..") or skip entries ("./b").
+		seekPrefix = []byte(prefix + after)
 	}
 
 	// Assume the bucket exists and has keys.
